@@ -55,8 +55,8 @@ def r1(ctx):
         v = s.value
         if attr == "empirical_covariance":
             if not (isinstance(v, App) and v.fn == "numpy.cov" and v.args):
-                ctx.fail(fi, "empirical covariance is not computed by numpy.cov", line=s.stmt.lineno, role="cov:callee",
-                         expected="numpy.cov(...)", found=str(v)[:100])
+                ctx.unrecognised(fi, "empirical covariance is not computed by a numpy.cov call (an explicit scatter-matrix formula is not modelled)",
+                                 line=s.stmt.lineno, role="cov:callee", found=str(v)[:100])
                 continue
             x = v.args[0]
             rowvar = v.kwarg("rowvar")
